@@ -1,5 +1,6 @@
 (* C18 - Events: every subscriber sees every publication once, in order. *)
-From Ergo Require Import Common.Base Event.Model Event.Proofs Event.Remote Event.RemoteProofs Event.RemoteRefine.
+From Ergo Require Import Common.Base Event.Model Event.Proofs Event.Remote Event.RemoteProofs Event.RemoteRefine
+  Event.Bounded Event.BoundedProofs.
 
 (* Exactly once, in order (any number of actors, any programs, any schedule).
    For every actor i and receiver x: the items i has pushed into x's mailbox, followed by what its
@@ -162,3 +163,73 @@ Theorem C18_remote_unregister_overtakes_refuted :
     settled rs = true /\ ghost_ev rs 1 = [IEv 0 7] /\ ev_of rs 1 = [] /\ sys_of rs 1 = [IDown 0].
 Proof. exact remote_unregister_overtakes_refuted. Qed.
 Print Assumptions C18_remote_unregister_overtakes_refuted.
+
+(* ---- subscribers that cannot take a message: bounded mailbox full (handler blocked), or terminated -------- *)
+
+(* [bseq_hist stk h]: the node whose subscribers [stk] (actor, MailboxSize) consume nothing - sendEventMessage
+   answers ErrProcessMailboxFull once MailboxSize messages wait behind the one the blocked handler holds, and
+   ErrProcessUnknown for a receiver that left the process table; RouteSendEvent ignores both and goes on.
+   For EVERY set of stuck subscribers and EVERY history the result is the node without stuck subscribers
+   with the refused event messages taken out of the delivery log, and nothing else. *)
+Theorem C18_bounded_is_projection : forall stk h, bseq_hist stk h = bproj stk (seq_hist h).
+Proof. exact bounded_is_projection. Qed.
+Print Assumptions C18_bounded_is_projection.
+
+(* event record (token, counter, last-N buffer), relations, and every return value - also the last-N list
+   handed to a later subscriber and the publisher's nil - do not depend on stuck subscribers *)
+Theorem C18_bounded_state_independent : forall stk h,
+  let b := bseq_hist stk h in let u := seq_hist h in
+  q_reg b = q_reg u /\ q_subs b = q_subs u /\ q_ntok b = q_ntok u /\ q_dead b = q_dead u /\ q_res b = q_res u.
+Proof. exact bounded_state_independent. Qed.
+Print Assumptions C18_bounded_state_independent.
+
+(* everything addressed to an actor that is not stuck, in order *)
+Theorem C18_bounded_healthy_independent : forall stk h x, stuck_cap stk x = None ->
+  onx x (q_out (bseq_hist stk h)) = onx x (q_out (seq_hist h)).
+Proof. exact bounded_healthy_independent. Qed.
+Print Assumptions C18_bounded_healthy_independent.
+
+(* exactly once, in order, at history level: the event messages of x are the publications accepted while
+   x was alive and held a link or a monitor ([expect]: one entry per such publication, in history order) *)
+Theorem C18_seq_exactly_once_in_order : forall h x, sinbox is_ev x (q_out (seq_hist h)) = expect x sst0 h.
+Proof. exact seq_exactly_once_in_order. Qed.
+Print Assumptions C18_seq_exactly_once_in_order.
+
+Theorem C18_bounded_healthy_exactly_once : forall stk h x, stuck_cap stk x = None ->
+  sinbox is_ev x (q_out (bseq_hist stk h)) = expect x sst0 h.
+Proof. exact bounded_healthy_exactly_once. Qed.
+Print Assumptions C18_bounded_healthy_exactly_once.
+
+(* the stuck subscriber itself: the first MailboxSize + 1 publications made for it, in order; its exit /
+   down / start / stop are untouched *)
+Theorem C18_bounded_stuck_prefix : forall stk h x cap, stuck_cap stk x = Some cap -> 1 <= cap ->
+  sinbox is_ev x (q_out (bseq_hist stk h)) = firstn (S cap) (expect x sst0 h) /\
+  sinbox is_sys x (q_out (bseq_hist stk h)) = sinbox is_sys x (q_out (seq_hist h)) /\
+  sinbox is_exit x (q_out (bseq_hist stk h)) = sinbox is_exit x (q_out (seq_hist h)).
+Proof.
+  intros stk h x cap Hx Hc. split; [exact (bounded_stuck_exactly_prefix stk h x cap Hx Hc)|].
+  exact (proj2 (bounded_stuck_prefix stk h x cap Hx Hc)).
+Qed.
+Print Assumptions C18_bounded_stuck_prefix.
+
+(* a delivery loop that returns the first delivery error to the publisher does NOT have the property: *)
+Theorem C18_fanout_early_return_refuted :
+  exists stk h x, stuck_cap stk x = None /\
+    expect x sst0 h = [IEv 0 1; IEv 0 2; IEv 0 3] /\
+    sinbox is_ev x (q_out (early_hist stk h)) = [IEv 0 1; IEv 0 2].
+Proof. exact early_return_refuted. Qed.
+Print Assumptions C18_fanout_early_return_refuted.
+
+(* The two facts above hold call by call from ANY state - also a state in which a subscriber is already out of
+   the process table ([q_dead]) while its relations are still there (unregisterProcess between
+   processes.Delete and CleanupConsumer: sendEventMessage answers ErrProcessUnknown, the loop goes on):
+   the call on the node with stuck subscribers is the call on the node without them, projected; and a
+   publication reaches every live holder of a link or monitor once, whoever else is in the consumer list. *)
+Theorem C18_bounded_call_any_state : forall stk u io, bseq_op stk (bproj stk u) io = bproj stk (seq_op u io).
+Proof. exact bseq_op_bproj. Qed.
+Print Assumptions C18_bounded_call_any_state.
+
+Theorem C18_call_exactly_once_any_state : forall x s io,
+  sinbox is_ev x (q_out (seq_op s io)) = sinbox is_ev x (q_out s) ++ pub_for x s io.
+Proof. exact seq_op_evs. Qed.
+Print Assumptions C18_call_exactly_once_any_state.
